@@ -267,7 +267,8 @@ class C08(Prop):
     lean_modules = ["PkgProofs.Props.C08"]
     theorems = ["C08.str_roundtrip", "C08.str_idempotent", "C08.url_xor_spec", "C08.eq_is_pep503_and_spec_eq",
                 "C08.eq_equivalence", "C08.hash_agrees", "C08.extras_as_set", "C08.marker_after_url_needs_ws",
-                "C08.requirement_marker_eq_marker", "C08.parse_wf", "C08.parsed_roundtrip", "C08.requirement_roundtrip",
+                "C08.requirement_marker_eq_marker", "C08.parse_wf", "C08.parsed_roundtrip", "C08.requirement_roundtrip", "C08.Examples.glued_semicolon", "C08.Examples.f05_rejected",
+                "C08.Examples.f06_str_depends_on_order", "C08.Examples.specifier_rule_tied",
                 "ReqClause.verForm_app", "ReqClause.stages_of_scanCore", "ReqClause.verForm_clause", "ReqClause.matchSpecifier_op",
                 "ReqClause.tokExact_of_parse", "ReqClause.ver_chars_of_parse", "ReqClause.takeKw_pre_rest", "ReqWf.name_identOK",
                 "ReqWf.parseExtras_idents", "ReqWf.members_roundtrip", "ReqWf.marker_wf", "ReqMk.fuel_enough", "ReqMk.marker_standalone", "ReqMk.parseMarker_sim",
